@@ -726,6 +726,58 @@ fn gen_rule(rng: &mut Rng, pool: &[VTok], kinds: &[SyntaxKind]) -> (VCond, VActi
     (c, a)
 }
 
+/// Whitespace tokens (tabs and spaces, in some order) whose width is `col`
+/// when a tab counts `tab` columns.
+fn ws_of_width(rng: &mut Rng, col: usize, tab: usize) -> Vec<VTok> {
+    let mut v = vec![];
+    let max_tabs = if tab == 0 { 3 } else { col / tab };
+    let tabs = if max_tabs == 0 { 0 } else { rng.below(max_tabs as u64 + 1) as usize };
+    let spaces = col.saturating_sub(tabs * tab);
+    match rng.below(3) {
+        0 => { for _ in 0..tabs { v.push(VTok::Tab); } for _ in 0..spaces { v.push(VTok::Whitespace); } }
+        1 => { for _ in 0..spaces { v.push(VTok::Whitespace); } for _ in 0..tabs { v.push(VTok::Tab); } }
+        _ => { let k = if spaces == 0 { 0 } else { rng.below(spaces as u64 + 1) as usize };
+               for _ in 0..k { v.push(VTok::Whitespace); } for _ in 0..tabs { v.push(VTok::Tab); } for _ in k..spaces { v.push(VTok::Whitespace); } }
+    }
+    v
+}
+
+/// Token streams aimed at the column bookkeeping of the comment stage: lines
+/// with tab/space indentation, code, a comment, and follow-up comment lines
+/// whose whitespace puts them in the same column as the first one (counting a
+/// tab as `tab` columns, or as one column, or somewhere else), with more
+/// tabs/spaces after the comments.
+fn directed_comment_stream(rng: &mut Rng, tab: usize) -> Vec<VTok> {
+    let mut v = vec![VTok::Begin(SyntaxKind::SOURCE_FILE)];
+    for _ in 0..(1 + rng.below(4)) {
+        let mut col = 0usize;           // as CommentProcessor counts it
+        let mut col1 = 0usize;          // counting every tab as one column
+        for _ in 0..rng.below(3) { v.push(VTok::Tab); col += tab; col1 += 1; }
+        for _ in 0..rng.below(4) { v.push(VTok::Whitespace); col += 1; col1 += 1; }
+        if rng.chance(3, 4) {
+            let n = 1 + rng.below(6) as usize;
+            v.push(VTok::Identifier(vec![b'x'; n])); col += n; col1 += n;
+            for _ in 0..(1 + rng.below(3)) { v.push(VTok::Whitespace); col += 1; col1 += 1; }
+            if rng.chance(1, 4) { v.push(VTok::Tab); col += tab; col1 += 1; }
+        }
+        let first: &[u8] = *rng.pick(&[b"// a".as_slice(), b"// first comment", b"/* a */", b"/* a\n\t   b */"]);
+        v.push(VTok::Comment(first.to_vec()));
+        if rng.chance(1, 3) { v.push(VTok::Whitespace); v.push(VTok::Tab); }
+        for _ in 0..(1 + rng.below(3)) {
+            v.push(VTok::Newline);
+            let target = match rng.below(5) { 0 | 1 => col, 2 => col1, 3 => col + 1, _ => rng.below(12) as usize };
+            v.extend(ws_of_width(rng, target, tab));
+            v.push(VTok::Comment(rng.pick(&[b"// b".as_slice(), b"// c", b"/* d */"]).to_vec()));
+            if rng.chance(1, 4) { v.push(VTok::Tab); }
+        }
+        if rng.chance(1, 2) { v.push(VTok::Newline); }
+        if rng.chance(1, 3) { v.push(VTok::Newline); }
+        if rng.chance(1, 2) { v.push(VTok::Keyword(b"rule".to_vec())); v.push(VTok::Newline); }
+    }
+    v.push(VTok::End(SyntaxKind::SOURCE_FILE));
+    v
+}
+
 fn small_source(rng: &mut Rng) -> String {
     let mut lex = vec![];
     if rng.chance(1, 3) { lex.extend(v(&["import", "\"pe\""])); }
@@ -944,7 +996,8 @@ pub fn run(args: &[String]) -> i32 {
             let mut i = 0; while i < v.len() { if rng.chance(1, every) { v.insert(i, rng.pick(what).clone()); i += 1; } i += 1; } };
         let (stage, stage_coq, input): (hook::VStage, String, Vec<VTok>) = match which {
             0 => (hook::VStage::Comments { tab_size: tab }, format!("HComments {}%nat", tab), {
-                let mut v = toks.clone(); if rng.chance(1, 6) { sprinkle(&mut rng, &mut v, &[VTok::Tab, VTok::Whitespace, VTok::Newline, VTok::Indentation(1)], 9); } v }),
+                if rng.chance(1, 2) { directed_comment_stream(&mut rng, tab) } else {
+                let mut v = toks.clone(); if rng.chance(1, 6) { sprinkle(&mut rng, &mut v, &[VTok::Tab, VTok::Whitespace, VTok::Newline, VTok::Indentation(1)], 9); } v } }),
             1 => (hook::VStage::HexPatterns, "HHex".into(), {
                 let mut v = if rng.chance(1, 3) { toks.clone() } else { prepared(&toks) };
                 if rng.chance(1, 2) { sprinkle(&mut rng, &mut v, &[VTok::Newline, VTok::Newline, VTok::Begin(SyntaxKind::HEX_PATTERN), VTok::End(SyntaxKind::HEX_PATTERN), VTok::Punctuation(b"{".to_vec()), VTok::Punctuation(b"}".to_vec())], 12); } v }),
